@@ -847,7 +847,113 @@ pub fn run(rng: &mut Rng, thorough: bool, corpus: &[String]) -> Run {
     item_tables(&mut run);
     privilege_checks(&mut run);
     config_files(&mut run);
+    locale_precedence(&mut run);
+    dns_timeout_in_force(&mut run);
     run
+}
+
+/// C16 one step further than `TrippyConfig`: the value of `--dns-timeout` is in force in the resolver the application
+/// starts from it (`start_dns_resolver`: `DnsResolver::start(Config::new(method, family, timeout, ttl))`) — for the
+/// `resolv` method, whose options are read from the system configuration first.  Only where `/etc/resolv.conf` names
+/// the loopback address as its sole name server and port 53 can be bound: a name server that never answers is put
+/// there, and a blocking reverse look-up with a 150 ms time-out has to give up within a few multiples of it (the
+/// system configuration's own time-out is 5 s per attempt).
+fn dns_timeout_in_force(run: &mut Run) {
+    let conf = std::fs::read_to_string("/etc/resolv.conf").unwrap_or_default();
+    let servers: Vec<&str> = conf.lines().filter_map(|l| l.trim().strip_prefix("nameserver")).map(str::trim).collect();
+    if servers != ["127.0.0.1"] {
+        run.count("dns:resolv-conf-not-loopback");
+        return;
+    }
+    let Ok(sock) = std::net::UdpSocket::bind("127.0.0.1:53") else {
+        run.count("dns:port-53-unavailable");
+        return;
+    };
+    let _ = sock.set_read_timeout(Some(Duration::from_millis(50)));
+    let stop = std::sync::Arc::new(std::sync::atomic::AtomicBool::new(false));
+    let s2 = stop.clone();
+    let server = std::thread::spawn(move || {
+        let mut buf = [0u8; 1500];
+        let mut seen = 0usize;
+        while !s2.load(std::sync::atomic::Ordering::SeqCst) {
+            if sock.recv_from(&mut buf).is_ok() { seen += 1; }
+        }
+        seen
+    });
+    let mut args = base_args();
+    args.dns_resolve_method = Some(DnsResolveMethodConfig::Resolv);
+    args.dns_timeout = Some(Duration::from_millis(150));
+    if let Ok(Ok(cfg)) = guarded(|| verif_build_config(args, Sections::new().into_file(true), &privilege(), PID)) {
+        let started = guarded(|| trippy_dns::DnsResolver::start(trippy_dns::Config::new(cfg.dns_resolve_method, cfg.addr_family, cfg.dns_timeout, cfg.dns_ttl)));
+        if let Ok(Ok(resolver)) = started {
+            use trippy_dns::Resolver as _;
+            let t0 = std::time::Instant::now();
+            let entry = resolver.reverse_lookup(IpAddr::V4(Ipv4Addr::new(10, 11, 12, 13)));
+            let took = t0.elapsed();
+            run.count("dns:timeout-checked");
+            if took > Duration::from_secs(4) {
+                run.fail("c16-dns-timeout-not-in-force", format!(
+                    "--dns-resolve-method resolv --dns-timeout 150ms, a name server that does not answer: the reverse look-up was given up after {took:?} (as {entry:?})"));
+            }
+        } else {
+            run.count("dns:resolver-unavailable");
+        }
+    }
+    stop.store(true, std::sync::atomic::Ordering::SeqCst);
+    if server.join().unwrap_or(0) == 0 { run.count("dns:no-query-seen"); }
+}
+
+/// C16 for the UI locale, whose default is not a constant but the *system* locale: `--tui-locale` (or `tui-locale` in
+/// the file) over the system locale (`LANG` & co.) over English; an unsupported region falls back to its language, an
+/// unsupported language to English.  The option travels the application's way (`build_config` → `cfg.tui_locale` →
+/// `set_locale`, as `run_trippy` calls it) under several values of the locale environment variables.
+fn locale_precedence(run: &mut Run) {
+    let vars = ["LANGUAGE", "LC_ALL", "LC_MESSAGES", "LANG"];
+    let saved: Vec<(&str, Option<std::ffi::OsString>)> = vars.iter().map(|k| (*k, std::env::var_os(k))).collect();
+    let available = trippy_tui::verif::available_locales();
+    let language = |l: &str| l.split(['-', '_', '.']).next().unwrap_or("en").to_string();
+    // what a requested / system locale resolves to, from the list of locales the program ships
+    let resolve = |l: &str| -> String {
+        let l = l.split('.').next().unwrap_or(l).replace('_', "-");
+        if available.contains(&l.as_str()) { l } else if available.contains(&language(&l).as_str()) { language(&l) } else { "en".to_string() }
+    };
+    for sys in [None, Some("de_DE.UTF-8"), Some("fr_FR.UTF-8"), Some("C"), Some("ja_JP.UTF-8"), Some("zh_CN.UTF-8")] {
+        for v in vars { std::env::remove_var(v); }
+        if let Some(s) = sys { std::env::set_var("LANG", s); }
+        // the system locale as the program's own dependency reports it (an environment in which it cannot be read is skipped)
+        let requested: [(Option<&str>, bool); 7] = [(None, false), (Some("fr"), false), (Some("zh"), true), (Some("pt-BR"), false), (Some("de"), true), (Some("xx"), false), (Some("en"), false)];
+        for (req, in_file) in requested {
+            let mut args = base_args();
+            let mut secs = Sections::new();
+            if let Some(r) = req {
+                if in_file { secs.tui.tui_locale = Some(r.to_string()); } else { args.tui_locale = Some(r.to_string()); }
+            }
+            let Ok(Ok(cfg)) = guarded(|| verif_build_config(args, secs.into_file(true), &privilege(), PID)) else {
+                run.count("locale:config-rejected");
+                continue;
+            };
+            let Ok(got) = guarded(|| trippy_tui::verif::set_locale(cfg.tui_locale.as_deref())) else {
+                run.fail("c16-build-config-panics", format!("set_locale({:?}) with LANG={sys:?}", cfg.tui_locale));
+                continue;
+            };
+            run.count("locale:checked");
+            let want = match (req, sys) {
+                (Some(r), _) => resolve(r),
+                (None, Some(s)) => resolve(s),
+                (None, None) => "en".to_string(),
+            };
+            // (with no request and no LANG the system locale may still come from elsewhere: not judged)
+            if (req.is_some() || sys.is_some()) && got != want {
+                run.fail("c16-locale-precedence", format!(
+                    "tui-locale {} with LANG={}: the UI runs in [{got}], expected [{want}] (command line / file over the system locale over English)",
+                    req.map_or("not given".to_string(), |r| format!("= {r} ({})", if in_file { "file" } else { "command line" })), sys.unwrap_or("unset")));
+            }
+        }
+    }
+    for (k, v) in saved {
+        match v { Some(v) => std::env::set_var(k, v), None => std::env::remove_var(k) }
+    }
+    let _ = trippy_tui::verif::set_locale(Some("en"));
 }
 
 /// C16, the file layer as the program reads it (`TrippyConfig::from`): a configuration file in any of the documented
